@@ -41,6 +41,10 @@ pub fn json_str(s: &str) -> String {
     o
 }
 
+pub fn finish_pub(r: Runner, id: &str, nontrivial: bool) -> CaseResult {
+    finish(r, id, nontrivial)
+}
+
 fn finish(r: Runner, id: &str, nontrivial: bool) -> CaseResult {
     let mut r = r;
     let annot = r.case_text(id);
@@ -210,10 +214,25 @@ pub fn dispatch(scratch: &Path, meta: usize, campaign: &str, id: &str, seed: u64
     match campaign {
         "ops" => case_ops(scratch, meta, id, seed, len, &[Pol::AlwaysFlush]),
         "policy-ops" => case_ops(scratch, meta, id, seed, len, &ALL_POLS),
+        "crash" => crate::crash::case_crash(scratch, meta, id, seed, len, &crash_cfg(false), None),
+        "crash-policies" => crate::crash::case_crash(scratch, meta, id, seed, len, &crash_cfg(true), None),
         other => panic!("unknown campaign {}", other),
     }
 }
 
-pub fn dispatch_replay(scratch: &Path, meta: usize, _campaign: &str, case: &Case) -> CaseResult {
-    case_replay(scratch, meta, case)
+pub fn crash_cfg(all_policies: bool) -> crate::crash::CrashCfg {
+    crate::crash::CrashCfg {
+        pols: if all_policies { ALL_POLS.to_vec() } else { vec![Pol::AlwaysFlush, Pol::AlwaysFlush, Pol::AlwaysFsync, Pol::DelayNowFlush] },
+        max_points: std::env::var("VERIF_CRASH_POINTS").ok().and_then(|s| s.parse().ok()).unwrap_or(40),
+        cont_every: 4,
+    }
+}
+
+pub fn dispatch_replay(scratch: &Path, meta: usize, campaign: &str, case: &Case) -> CaseResult {
+    let id = if case.id.is_empty() { "replay".to_string() } else { case.id.clone() };
+    match campaign {
+        "crash" => crate::crash::case_crash(scratch, meta, &id, 1, 0, &crash_cfg(false), Some(case)),
+        "crash-policies" => crate::crash::case_crash(scratch, meta, &id, 1, 0, &crash_cfg(true), Some(case)),
+        _ => case_replay(scratch, meta, case),
+    }
 }
